@@ -95,3 +95,30 @@ Definition dict_of_pairs {V : Type} (l : list (Z * V)) : list (Z * V) :=
 (* d.update(other) with other a dict: other's items are inserted into d in other's order *)
 Definition dict_update {V : Type} (d other : list (Z * V)) : list (Z * V) :=
   fold_left (fun d kv => dict_set d (fst kv) (snd kv)) other d.
+(* ---- additions for synergy.py / data.py (C20 links) ---- *)
+(* a dict keyed by pairs of integers (`pairdict T`): insertion-ordered association list *)
+Fixpoint pdict_get {V : Type} (d : list ((Z * Z) * V)) (a b : Z) : option V :=
+  match d with
+  | [] => None
+  | ((a', b'), v) :: r => if (a' =? a) && (b' =? b) then Some v else pdict_get r a b
+  end.
+(* (a, b) in d *)
+Definition pdict_mem {V : Type} (d : list ((Z * Z) * V)) (a b : Z) : bool :=
+  match pdict_get d a b with Some _ => true | None => false end.
+(* d[(a, b)]: KeyError (Err tag) when the key is absent *)
+Definition pdict_read {V : Type} (tag : Z) (d : list ((Z * Z) * V)) (a b : Z) : result V :=
+  match pdict_get d a b with Some v => Ok v | None => Err tag end.
+(* d[(a, b)] = v: an existing key keeps its place and gets the new value, a new key goes last *)
+Fixpoint pdict_set {V : Type} (d : list ((Z * Z) * V)) (a b : Z) (v : V) : list ((Z * Z) * V) :=
+  match d with
+  | [] => [((a, b), v)]
+  | ((a', b'), v') :: r => if (a' =? a) && (b' =? b) then ((a', b'), v) :: r else ((a', b'), v') :: pdict_set r a b v
+  end.
+(* a[i, j] = v on a 2-d array held as the list of its rows: both indices wrap once, IndexError (Err tag) outside *)
+Definition list_set2 {A : Type} (tag : Z) (m : list (list A)) (i j : Z) (v : A) : result (list (list A)) :=
+  let n := Z.of_nat (length m) in
+  let i' := if i <? 0 then i + n else i in
+  if (0 <=? i') && (i' <? n) then
+    dor row <- list_set tag (nth (Z.to_nat i') m []) j v;
+    list_set tag m i' row
+  else Err tag.
